@@ -90,6 +90,10 @@ fn ask(workers: &mut BTreeMap<String, Worker>, manifest: &BTreeMap<String, Strin
         Some(p) => p,
         None => return format!("bad-op no-such-config:{}", conf),
     };
+    if let Some(reason) = path.strip_prefix('!') {
+        // the configuration does not compile: every case of it reports that
+        return format!("build-failed {}", reason);
+    }
     if !workers.contains_key(conf) {
         match spawn(conf, path) {
             Some(w) => {
@@ -147,7 +151,8 @@ fn front() {
                 ask(&mut workers, &manifest, conf, body)
             }
             "cfgall" => {
-                let confs: Vec<String> = manifest.keys().cloned().collect();
+                // every configuration of this run except the 16-bit one (recorded separately: it does not compile)
+                let confs: Vec<String> = manifest.keys().filter(|c| !c.starts_with("w16")).cloned().collect();
                 let answers: Vec<(String, String)> =
                     confs.iter().map(|c| (c.clone(), ask(&mut workers, &manifest, c, rest))).collect();
                 if answers.is_empty() {
